@@ -136,6 +136,9 @@ func (e *myEngine) fields(sel *sqlparser.Select) ([]mysess.Field, []func(m myMat
 	scan = func(te sqlparser.TableExpr) {
 		switch n := te.(type) {
 		case *sqlparser.AliasedTableExpr:
+			if _, ok := n.Expr.(*sqlparser.Subquery); ok && !n.As.IsEmpty() {
+				talias = strings.ToLower(n.As.String()) // a derived table over t
+			}
 			if tn, ok := n.Expr.(sqlparser.TableName); ok && !n.As.IsEmpty() {
 				if strings.EqualFold(tn.Name.String(), "t") {
 					talias = strings.ToLower(n.As.String())
@@ -269,6 +272,7 @@ func CheckSessionMySQL(c Case) (vs hx.Vs, classes []string) {
 		vs.Add("harness:resolve", "%v", rerr)
 		return
 	}
+	c.session = true
 	tabs := tables(c)
 	yaml := pgprog.SchemaYAML(tabs)
 	defs := myDefs(tabs)
@@ -300,6 +304,8 @@ func CheckSessionMySQL(c Case) (vs hx.Vs, classes []string) {
 		if err != nil {
 			if p := s.Panics(); len(p) > 0 {
 				vs.Add("handler-panic:"+what+":mysql", "%.200s: %.600s", sql, p[0])
+			} else if cls := openStatementClass(c, "mysql"); cls != "" && strings.HasPrefix(what, "select") {
+				vs.Add(cls, "%.200s: %v %v", sql, err, s.ProxyErrors())
 			} else {
 				vs.Add("session-broken:"+what+":mysql", "%.200s: %v %v", sql, err, s.ProxyErrors())
 			}
@@ -501,6 +507,10 @@ func CheckSessionMySQL(c Case) (vs hx.Vs, classes []string) {
 		}
 	}
 	debugf("SELECT %.300s\n   DB got %.400s\n   errs=%q rows=%d", r.SQL, emitted, rep.Error(), len(rep.First().Rows))
+	if cls := openStatementClass(c, "mysql"); cls != "" {
+		vs.Add(cls, "statement of an open class (not judged further)\n  sent:    %.300s\n  emitted: %.400s", r.SQL, emitted)
+		return vs, classes
+	}
 	// the search terms (and the stored plaintexts) never reach the database in clear
 	// (searched per command: in the raw stream a packet header next to a value can complete a marker)
 	inClear := func(m []byte) bool {
@@ -591,7 +601,7 @@ func CheckSessionMySQL(c Case) (vs hx.Vs, classes []string) {
 }
 
 func TestSearchSessionsMySQL(t *testing.T) {
-	R.Rule("TestSearchSessionsMySQL", "whole MySQL sessions through acra's real proxy (internal/mysess): the case of TestRewriteMySQL (table t(id, s searchable, p, n) joined with u(id, ref, tag[, s plain / searchable of the same or another key owner]); 1-12 plaintexts incl. values shaped like stored searchable values) is written with INSERT statements over the text protocol (literal spellings '..', \"..\", X'..', 0x..) or the binary protocol (COM_STMT_PREPARE / EXECUTE with typed parameters), then one SELECT id, s[, tag] FROM t [AS q] [JOIN u [AS v] ON .. [AND cond]] WHERE cond (or id IN (sub-query)) is sent as COM_QUERY or prepared and executed with the search terms as parameters. The fake database stores what it receives; SELECTs are evaluated literally over its rows (three-valued logic, substr / convert). Oracles: every stored value of a searchable column starts with the reference index of its plaintext under the column's key owner; multiset of returned ids = model; rows returned to the owner carry the plaintext; no plaintext marker of a stored or searched value of a searchable column in the bytes the database received; no handler panic. Non-trivial = a searched value is present AND some row is excluded. I/O deadlines = inconclusive")
+	R.Rule("TestSearchSessionsMySQL", "whole MySQL sessions through acra's real proxy (internal/mysess): the case of TestRewriteMySQL (table t(id, s searchable, p, n) joined with u(id, ref, tag[, s plain / searchable of the same or another key owner]); 1-12 plaintexts incl. values shaped like stored searchable values) is written with INSERT statements over the text protocol (literal spellings '..', \"..\", X'..', 0x..) or the binary protocol (COM_STMT_PREPARE / EXECUTE with typed parameters), then one SELECT id, s[, tag] FROM t [AS q] [JOIN u [AS v] ON .. [AND cond]] WHERE cond (or id IN (sub-query); t possibly read through a derived table (SELECT .. FROM t ..) AS d (as right operand of a join: open known finding derived-table-as-right-join-operand:mysql); comparisons also written col <=> value) is sent as COM_QUERY or prepared and executed with the search terms as parameters. The fake database stores what it receives; SELECTs are evaluated literally over its rows (three-valued logic, substr / convert). Oracles: every stored value of a searchable column starts with the reference index of its plaintext under the column's key owner; multiset of returned ids = model; rows returned to the owner carry the plaintext; no plaintext marker of a stored or searched value of a searchable column in the bytes the database received; no handler panic. Non-trivial = a searched value is present AND some row is excluded. I/O deadlines = inconclusive")
 	hx.Checks(70, 2000)
 	rapid.Check(t, func(rt *rapid.T) {
 		c := genCase(rt, genOpts{mysql: true, session: true})
